@@ -63,6 +63,17 @@ Theorem C20_sig_hash_input_inj_v3 : forall d1 d2 ty1 ty2 t1 t2, t1 < 4294967296 
 Proof. exact hash_input_v3_doc_inj. Qed.
 Print Assumptions C20_sig_hash_input_inj_v3.
 
+(* MPI normalisation: leading zero octets of R and S are lost in the MPI encoding; the verifier hands the primitive
+   octet strings with exactly the values of the MPIs, padded back to 32 octets when shorter *)
+Theorem C20_eddsa_sigval_values : forall r s a b, eddsa_sigval r s = Some (a, b) -> be_value a = r /\ be_value b = s.
+Proof. exact eddsa_sigval_values. Qed.
+Print Assumptions C20_eddsa_sigval_values.
+
+Theorem C20_eddsa_sigval_padded : forall r s a b, eddsa_sigval r s = Some (a, b) ->
+  ((mpi_octets r < 32)%nat -> length a = 32%nat) /\ ((mpi_octets s < 32)%nat -> length b = 32%nat).
+Proof. exact eddsa_sigval_padded. Qed.
+Print Assumptions C20_eddsa_sigval_padded.
+
 (* validity: exactly "not expired, not older than its key, not dated more than 25 h ahead, strong hash" *)
 Theorem C20_validity_rules_iff : forall current creation expiration keycreation h,
   check_validity current creation expiration keycreation h = Valid <->
